@@ -253,6 +253,41 @@ def h_settings(client):
     return h
 
 
+def h_settings_reserved():
+    """a stream reserved by PUSH_PROMISE (not open yet) has a window too: it follows the
+    peer's INITIAL_WINDOW_SIZE like every other stream, and limits DATA once it is opened"""
+    def h():
+        with h2h.native():
+            c, s = h2h.pair()
+            c.send_headers(1, h2h.REQ)
+            h2h.pump(c, s)
+            s.push_stream(1, 2, h2h.REQ)
+            s.data_to_send()
+        old = sym_int('old', 0, INT31, default=65535)
+        new = sym_int('new', 0, INT31, default=1000)
+        S2 = sym_int('S2', -INT31 - 1, INT31, default=65535)
+        h2h.Adapter.set_remote_initial_window(s, old)
+        h2h.Adapter.set_stream_out_window(s, 2, S2)
+        h2h.Adapter.set_stream_out_window(s, 1, 0)
+        f = hf.SettingsFrame(0)
+        f.settings = {4: new}
+        d = new - old
+        try:
+            h2h.deliver(s, [f])
+        except h2.exceptions.ProtocolError:
+            note('overflow')
+            check(s_lt(INT31, S2 + d), 'settings-error-without-overflow', (S2, old, new))
+            return
+        note('applied')
+        check(s_not(s_lt(INT31, S2 + d)), 'settings-overflow-accepted', None)
+        check(s.streams[2].outbound_flow_control_window == S2 + d,
+              'reserved-stream-window-not-moved', (s.streams[2].outbound_flow_control_window,
+                                                   S2 + d))
+        check(s.local_flow_control_window(2) == s_min(s.outbound_flow_control_window, S2 + d),
+              'reserved-stream-local-window', None)
+    return h
+
+
 def h_api_only(client):
     """API-only twin: the windows are reached through public inputs only (a SETTINGS
     value, two WINDOW_UPDATE increments, a first DATA), the ghost `peer view` is computed
@@ -340,4 +375,6 @@ def shards(tier, seed):
         if tier == 'thorough' or client:
             out.append(Shard('api_only/%s' % r, h_api_only(client), budget=120,
                              expect=['sent', 'refused']))
+    out.append(Shard('recv_settings_iws/reserved_stream', h_settings_reserved(),
+                     expect=['applied', 'overflow']))
     return out
